@@ -42,6 +42,22 @@ def chains(tree):
     yield from rec(tree)
 
 
+def before_chain_of(b):
+    vals = []
+    while b is not None and b[0] == 'blk':
+        vals.append(b[1].get('ba', 'auto'))
+        b = b[2][-1] if b[2] else None
+    return vals[::-1]
+
+
+def after_chain_of(b):
+    vals = []
+    while b is not None and b[0] == 'blk':
+        vals.append(b[1].get('bf', 'auto'))
+        b = b[2][0] if b[2] else None
+    return vals
+
+
 def words_of(b):
     if b[0] == 'lines':
         return list(b[1])
@@ -91,6 +107,36 @@ def judge_breaks(doc):
                 is_right = pb % 2 == 0          # first page is a right page in ltr
                 if is_right != want_right:
                     bad.append(('forced-side', (vals, wb[0], pb)))
+    # break-inside: avoid - a box that fits on a page and is preceded, on its page, by a sibling after which a break is
+    # allowed (every value meeting there is auto, no ancestor avoids breaks inside) is not split
+    def upper_height(b):
+        if b[0] == 'lines':
+            return 10 * len(b[1])
+        st = b[1]
+        return (sum(max(0, st.get(k, 0)) for k in ('mt', 'mb', 'pt', 'pb', 'bt', 'bb')) + sum(upper_height(k) for k in b[2]))
+
+    def forced_inside(b):
+        if b[0] != 'blk':
+            return False
+        return (RANK[b[1].get('bf', 'auto')] >= 2 or RANK[b[1].get('ba', 'auto')] >= 2 or any(forced_inside(k) for k in b[2]))
+
+    def avoid_rec(b, inside_avoid):
+        if b[0] != 'blk':
+            return
+        kids = b[2]
+        for prev, box in zip([None] + list(kids), kids):
+            if box[0] != 'blk':
+                continue
+            if (box[1].get('bi') in ('avoid', 'avoid-page') and not inside_avoid and prev is not None and prev[0] == 'blk'
+                    and doc.get('H') and upper_height(box) <= doc['H'] and not forced_inside(box)):
+                ws = words_of(box)
+                pgs = {page_of[x] for x in ws if x in page_of}
+                vals = before_chain_of(prev) + after_chain_of(box)
+                if (len(pgs) > 1 and ws[0] in page_of and first_of_page.get(page_of[ws[0]]) != ws[0]
+                        and words_of(prev) and all(RANK[v] == 0 for v in vals)):
+                    bad.append(('avoid-inside', (box[1].get('bi'), ws, sorted(pgs))))
+            avoid_rec(box, inside_avoid or box[1].get('bi') in ('avoid', 'avoid-page'))
+    avoid_rec(doc['root'], False)
     # orphans / widows
     paras = []
     paragraphs(doc['root'], paras)
@@ -177,13 +223,16 @@ def check(run):
     try:
         res = fragcheck.frag_stream(run, rng, 2500 if thorough else 450, 'c04frag',
                                     feats=('margin', 'pad', 'ow', 'break', 'clone'))
+        # blocks whose content fits but whose bottom padding / border does not (second layout of _in_flow_layout),
+        # with break-inside: avoid / orphans / widows around them
+        res += fragcheck.frag_stream(run, rng, 1500 if thorough else 300, 'c04padfit', docgen=fraggen.padfit_document)
         mism = [d for d, m in res if m & 1]
         run.oblige('corr:frag2-render(model pages = implementation pages)', not mism,
                    'first disagreements: %s' % [(d['H'], d['html']) for d in mism[:2]])
         nforced = nsplit = 0
         keys = []
         for d, m in res:
-            bad = judge_breaks(d)
+            bad = judge_breaks(d) + fragcheck.judge_blank_pages(d)
             for clause, detail in bad[:1]:
                 run.fail('break control not honoured: %s %s' % (clause, detail),
                          {'stream': 'frag2-render', 'html': d['html'], 'clause': clause, 'detail': detail},
@@ -194,8 +243,10 @@ def check(run):
                 keys.append(fragcheck.doc_key(d))
         run.count('frag2-render', len(res), keys, samples=[res[0][0]['html'][-400:]] if res else [])
         run.stream_info('frag2-render', forced_boundaries=nforced,
-                        rule='fraggen.py with every break-before/after/inside value, orphans/widows 1..4; judged: model pages = '
-                             'implementation pages; forced boundary => next page (and side); orphans/widows kept unless the page '
+                        rule='fraggen.py with every break-before/after/inside value, orphans/widows 1..4, and padfit documents '
+                             '(content fits, bottom decoration does not, avoid / orphans / widows around); judged: model pages = '
+                             'implementation pages; forced boundary => next page (and side); break-inside: avoid boxes that fit and follow '
+                             'an allowed break are not split; orphans/widows kept unless the page '
                              'was empty')
     except RuntimeError as exc:
         run.oblige('corr:frag2-render', False, str(exc))
